@@ -34,6 +34,8 @@
  * fitting an int (empty, sign, junk after the digits) - 0 with the default kept, or 1
  * with some value; contents of the stralloc when the answer is not 1.
  * Not required here (not in the documents): that the descriptor is closed.
+ * Pre-state: the caller's stralloc and control.c's shared line buffer hold arbitrary stale
+ * contents and lengths (they were used for other control files before).
  */
 #include "verif.h"
 #include <errno.h>
